@@ -237,7 +237,10 @@ def stream_run(seed):
                 tasks.append(asyncio.ensure_future(mover()))
             await asyncio.gather(*tasks)
 
-        loop.run_task(run())
+        try:
+            loop.run_task(run())
+        except (asyncio.TimeoutError, OSError) as e:   # the stream gave up although its peer never stalled: a verdict, not a harness failure
+            return "FAILED:" + type(e).__name__, 0
         return tap.export(), tap.inexact
     finally:
         tap.remove()
@@ -343,8 +346,13 @@ def e2e_run(seed):
         if churn:
             scen[nclients + 1] = churner
         out = clientdrv.run_clients(cfg, tree, scen)
-        if out["crash"] or out["exc"] or out["hang"]:
-            return None, 0, {"error": out["crash"] or repr(out["exc"]) or out["hang"]}
+        if out["crash"]:
+            return None, 0, {"error": out["crash"]}
+        if out["exc"] or out["hang"]:
+            # a transfer between two live peers that failed or never ended: the limiter (or a timeout that took the limiter's pause
+            # for the peer's silence) broke it
+            return [], 0, {"failed": repr(out["exc"]) or out["hang"], "limits": on, "direction": direction, "clients": nclients, "sock": sock,
+                           "any_limit": True, "duration": 0, "bounds": []}
         dur = max(t_end.values()) if t_end else 0
         bounds = []
         for lv in LEVELS:
@@ -415,8 +423,10 @@ def relogin_run(seed):
             mark["t2"] = common._now()
             await c.quit()
         out = clientdrv.run_clients(cfg, tree, {1: sc})
-        if out["crash"] or out["exc"] or out["hang"]:
-            return None, 0, {"error": out["crash"] or repr(out["exc"]) or out["hang"]}
+        if out["crash"]:
+            return None, 0, {"error": out["crash"]}
+        if out["exc"] or out["hang"]:
+            return [], 0, {"failed": repr(out["exc"]) or out["hang"], "any_limit": True, "duration": 0, "bounds": []}
         dur2 = mark["t2"] - mark["t1"]
         bounds = [{"level": "relogin:" + k, "tpb": TICK // v, "bytes": size, "streams": 1, "block": 8, "dur": int(round(dur2 * TICK))} for k, v in lb.items()]
         info = {"limits": {"first": la, "second": lb}, "direction": direction, "clients": 1, "size": size, "duration": dur2, "churn": "relogin",
@@ -467,6 +477,9 @@ def run(tier, seed):
         outs = P.map(fn, [base + i for i in range(n)], chunksize=16)
         traces, owner = [], []
         for i, (trs, inexact) in enumerate(outs):
+            if isinstance(trs, str):
+                chk.violation({"at": label, "event": "stream-gave-up"}, {"why": trs}, {"family": label, "seed": base + i})
+                continue
             if inexact:
                 raise RuntimeError("non-dyadic time in %s run %d" % (label, i))
             for t in trs:
@@ -487,6 +500,8 @@ def run(tier, seed):
             raise RuntimeError("e2e harness failure: %r" % (info,))
         if inexact:
             raise RuntimeError("non-dyadic time in e2e run %d" % i)
+        if info.get("failed"):
+            chk.violation({"at": "e2e-transfer-failed"}, info, {"family": "e2e", "seed": base + 7 + i})
         # nothing limited in that direction: no delay at all
         if not info["any_limit"] and info["duration"] != 0:
             chk.violation({"at": "e2e-off-is-free"}, info, {"family": "e2e", "seed": base + 7 + i})
